@@ -725,11 +725,14 @@ func litsWithHelpers(g *ssa.Function, instr ssa.Instruction, depth int) ([][]Lit
 	var seqs [][]item
 	onPath := map[*ssa.BasicBlock]bool{}
 	var cur []item
+	var order []*ssa.BasicBlock
 	var dfs func(b *ssa.BasicBlock)
 	dfs = func(b *ssa.BasicBlock) {
 		if !ok {
 			return
 		}
+		order = append(order, b)
+		defer func() { order = order[:len(order)-1] }()
 		mark := len(cur)
 		defer func() { cur = cur[:mark] }()
 		for _, in := range b.Instrs {
@@ -756,12 +759,19 @@ func litsWithHelpers(g *ssa.Function, instr ssa.Instruction, depth int) ([][]Lit
 				ifc = i.Cond
 			}
 		}
+		known := -1
+		if ifc != nil {
+			ifc, known = resolveCondOnPath(ifc, order)
+		}
 		for si, s := range b.Succs {
 			if onPath[s] || !canReach[s] {
 				continue
 			}
+			if known >= 0 && (si == 0) != (known == 1) {
+				continue
+			}
 			n := len(cur)
-			if ifc != nil {
+			if ifc != nil && known < 0 {
 				cur = append(cur, item{lit: normLit(condEdge{ifc, si == 0})})
 			}
 			dfs(s)
